@@ -41,6 +41,11 @@ from .values import (
     QUO,
     REM,
     divmod_axiom,
+    TUP,
+    TID,
+    TupListV,
+    as_T,
+    from_T,
 )
 
 
@@ -80,7 +85,7 @@ class State:
         self.decided = {}
 
     def fork(self):
-        env = {k: (v.copy() if isinstance(v, ListV) else v) for k, v in self.env.items()}
+        env = {k: (v.copy() if isinstance(v, (ListV, TupListV)) else v) for k, v in self.env.items()}
         out = State(env, list(self.pc))
         out.decided = dict(self.decided)
         return out
@@ -142,9 +147,8 @@ def assigned_names(stmts):
         if isinstance(node, (ast.Assign, ast.AugAssign, ast.AnnAssign)):
             targets = node.targets if isinstance(node, ast.Assign) else [node.target]
             for t in targets:
-                for sub in ast.walk(t):
-                    if isinstance(sub, ast.Name):
-                        out.add(sub.id)
+                for sub in _bound_names(t):
+                    out.add(sub)
         elif isinstance(node, (ast.For,)):
             for sub in ast.walk(node.target):
                 if isinstance(sub, ast.Name):
@@ -171,6 +175,8 @@ class Engine:
         self.perm_registry = []
         self.sort_registry = []
         self.filter_registry = []
+        self.seed_funs = []  # unary Int functions whose axioms are triggered by f(c): seeded at skolem constants
+        self.row_registry = []  # ROW functions (Int -> IntTuple) of tuple lists
         self.rules_used = set()
         self.concrete = False  # differential self-test mode: concrete inputs, loops unrolled, callees inlined
         self.definitional = {}
@@ -347,6 +353,8 @@ class Engine:
         if self.is_generator:
             if K.returns == "CellSetGen":
                 st.env["__out__"] = SetV(lambda v: z3.BoolVal(False), 2)
+            elif K.returns == "TupleList":
+                st.env["__out__"] = self.fresh_tuplist(st, empty=True)
             else:
                 st.env["__out__"] = ListV(0, lambda i: IntV(0))
         start = len(self.obls)
@@ -408,9 +416,40 @@ class Engine:
             st.assume(f)
         c.side.clear()
         self.obls.append(Obligation(f"lemma:{name}:cover", "cover", f"lemma:{name}", st.pc, z3.BoolVal(True), expect="sat"))
+        if isinstance(goal, list):
+            # a CHAIN of induction lemmas (name, lo, hi, P): each proved by induction on [lo, hi] (base,
+            # step) with the earlier ones available
+            self.prove_chain(goal, st, "")
+            return self.obls[start:]
         for j, conj in enumerate(_conjuncts(B(goal))):
             self.emit("goal", st, conj, f".{j}")
         return self.obls[start:]
+
+    def prove_chain(self, chain, hy, tag):
+        """items (name, lo, hi, P[, uses]): each proved by induction on [lo, hi] from the base facts and the
+        EARLIER items it names in `uses` (default: all earlier ones); afterwards all are available in hy"""
+        done = {}
+        for item in chain:
+            lname, lo, hi, Pf = item[:4]
+            uses = item[4] if len(item) > 4 else tuple(done)
+            h2 = State(hy.env, list(hy.pc))
+            self.assume_chain([done[u] for u in uses], h2)
+            lo_t, hi_t = Z(lo), Z(hi)
+            self.emit(f"lemma[{lname}]-base", h2, z3.Implies(lo_t <= hi_t, B(Pf(IntV(lo_t)))), tag)
+            i = fresh("ind")
+            step = z3.ForAll([i], z3.Implies(z3.And(i >= lo_t, i < hi_t, B(Pf(IntV(i)))), B(Pf(IntV(i + 1)))))
+            self.emit(f"lemma[{lname}]-step", h2, step, tag)
+            done[lname] = (lname, lo, hi, Pf)
+        self.assume_chain(list(done.values()), hy)
+
+    def assume_chain(self, chain, hy):
+        for item in chain:
+            lo, hi, Pf = item[1], item[2], item[3]
+            j = fresh("indq")
+            hy.assume(z3.ForAll([j], z3.Implies(z3.And(j >= Z(lo), j <= Z(hi)), B(Pf(IntV(j))))))
+            # the instance at the upper end is what callers usually need; the bound variable above
+            # often has no usable trigger
+            hy.assume(z3.Implies(Z(lo) <= Z(hi), B(Pf(IntV(Z(hi))))))
 
     def emit(self, kind, st, goal, tag="", inherited=()):
         gb = B(goal)
@@ -444,10 +483,21 @@ class Engine:
             return
         hyps.append(divmod_axiom())
         hyps.extend(self.global_axioms)
+        tconsts = [c_ for c_ in consts if c_.sort() == TUP]
+        consts = [c_ for c_ in consts if z3.is_int(c_)]
+        if tconsts or self.row_registry:
+            # facts quantified over every integer tuple are triggered by tid(t): make them applicable to
+            # the tuple constants of this goal and to the rows at the integer constants
+            tmark = fresh_fun("tmark", z3.IntSort(), z3.BoolSort())
+            for tc_ in tconsts:
+                hyps.append(tmark(TID(tc_)))
+            for row_ in self.row_registry:
+                for cst in consts:
+                    hyps.append(tmark(TID(row_(cst))))
         # Seed the e-graph: E-matching can only instantiate the permutation axioms
         # (patterns F(i) / G(v)) at terms that exist.  mark is a fresh uninterpreted predicate, so
         # asserting mark(t) constrains nothing (conservative) but makes the terms F(c), G(c) available.
-        if consts and (self.perm_registry or self.sort_registry or self.filter_registry):
+        if consts and (self.perm_registry or self.sort_registry or self.filter_registry or self.seed_funs):
             mark = fresh_fun("mark", z3.IntSort(), z3.BoolSort())
             for cst in consts:
                 for F_, G_, n_ in self.perm_registry:
@@ -459,6 +509,8 @@ class Engine:
                     for F_, G_, n_ in self.perm_registry[:3]:
                         hyps.append(mark(cnt_(F_(cst))))
                         hyps.append(mark(cnt_(G_(cst))))
+                for f_ in self.seed_funs:
+                    hyps.append(mark(f_(cst)))
                 for F_, G_, n_ in self.sort_registry:  # sigma / tau of sorted(...): neighbours too (off-by-one shifts)
                     for term in (cst, cst - 1, cst + 1):
                         hyps.append(mark(F_(term)))
@@ -483,16 +535,19 @@ class Engine:
         hy = State(st.env, list(st.pc))
         post_lemmas = getattr(K.cls, "post_lemmas", None)
         if post_lemmas is not None:
-            for lname, lo, hi, Pf in post_lemmas(c, *self.params.values(), val):
-                # proved by induction on i in [lo, hi]; afterwards available as a fact
-                lo_t, hi_t = Z(lo), Z(hi)
-                self.emit(f"lemma[{lname}]-base", hy, z3.Implies(lo_t <= hi_t, B(Pf(IntV(lo_t)))), tag)
-                i = fresh("ind")
-                step = z3.ForAll([i], z3.Implies(z3.And(i >= lo_t, i < hi_t, B(Pf(IntV(i)))), B(Pf(IntV(i + 1)))))
-                self.emit(f"lemma[{lname}]-step", hy, step, tag)
-                j = fresh("indq")
-                body = B(Pf(IntV(j)))
-                hy.assume(z3.ForAll([j], z3.Implies(z3.And(j >= lo_t, j <= hi_t), body)))
+            # proved by induction on i in [lo, hi]; afterwards available as a fact
+            self.prove_chain(post_lemmas(c, *self.params.values(), val), hy, tag)
+        uses = getattr(K.cls, "uses_lemmas", None)
+        if uses is not None:
+            # lemma chains proved ONCE as their own unit (lemma:<name>, over contracts only) and
+            # instantiated here at this function's arguments
+            for use in uses:
+                lname, pick = use[0], use[1]
+                only = use[2] if len(use) > 2 else None  # the items of the chain this function needs
+                L = dsl.LEMMAS[lname]
+                chain = L["fn"](c, *pick(*self.params.values()))
+                self.assume_chain([it for it in chain if only is None or it[0] in only], hy)
+                self.used_contracts.add(f"lemma:{lname}")
         goal = K.ensures(c, *self.params.values(), val)
         el = getattr(K.cls, "ensures_locals", None)
         if el is not None:
@@ -664,7 +719,12 @@ class Engine:
         if isinstance(node, ast.Continue):
             return [("continue", st, None)]
         if isinstance(node, ast.FunctionDef):
-            st.env[node.name] = FunV(node, st.env)
+            fv = FunV(node, st.env)
+            inner = getattr(self.contract.cls, "inner", {}) if self.contract is not None else {}
+            fv.contract = inner.get(node.name)
+            st.env[node.name] = fv
+            if fv.contract is not None and not self.concrete:
+                self.verify_inner(node, fv.contract, st)
             return [("fall", st, None)]
         if isinstance(node, ast.Try):
             if node.finalbody or node.orelse:
@@ -684,6 +744,18 @@ class Engine:
             else:
                 other = self.to_set(self.ev(node.value, st), st)
                 st.env["__out__"] = SetV(lambda x, out=out, other=other: z3.Or(B(out.contains(x)), B(other.contains(x))), out.arity)
+            return
+        if isinstance(out, TupListV):
+            if isinstance(node, ast.Yield):
+                tau = as_T(self.ev(node.value, st), st.assume)
+                self.row_registry.append(out.append(tau, st.assume))
+            else:
+                src = self.ev(node.value, st)
+                if isinstance(src, TupListV):
+                    src = src.snapshot()
+                if not (isinstance(src, SeqV) and src.meta.get("rowfun") is not None):
+                    raise Unsupported("yield from something that is not a list of integer tuples")
+                self.row_registry.append(out.extend(src.n, src.meta["rowfun"], st.assume))
             return
         if isinstance(node, ast.Yield):
             v = NONE if node.value is None else self.ev(node.value, st)
@@ -919,6 +991,8 @@ class Engine:
                 results.append(("fall", s, None))
             else:
                 results.append((kind, s, val))
+        if isinstance(node.test, ast.Constant) and node.test.value is True:
+            return results  # `while True`: the loop is only left through return / break / raise
         exit_st = st.fork()
         self.havoc(exit_st, carried)
         exit_st.assume(inv_formula(exit_st))
@@ -958,6 +1032,8 @@ class Engine:
                 return ListV(n, lambda i, Fb=Fb: BoolV(Fb(i)))
             F = fresh_fun(nm, z3.IntSort(), z3.IntSort())
             return ListV(n, lambda i, F=F: IntV(F(i)))
+        if isinstance(cur, TupListV):
+            return self.fresh_tuplist(st)
         if isinstance(cur, TupV):
             return TupV([self.fresh_like(x, nm, st) for x in cur.items])
         if isinstance(cur, NoneV):
@@ -1181,10 +1257,9 @@ class Engine:
                 v = self.ev(e, st)
                 t = self.truth(v, st)
                 vals.append((v, t))
-                if self.concrete:
-                    tc = BoolV(t).concrete()
-                    if tc is (False if isinstance(node.op, ast.And) else True):
-                        break  # Python's short circuit: the remaining operands are not evaluated
+                tc = BoolV(t).concrete()
+                if tc is (False if isinstance(node.op, ast.And) else True):
+                    break  # Python's short circuit: the remaining operands are not evaluated
                 gd = t if isinstance(node.op, ast.And) else z3.Not(t)
                 guards.append(gd)
                 st.pc.append(gd)
@@ -1579,7 +1654,185 @@ class Engine:
                 env[a.arg] = v
             s2 = State(env, st.pc)
             return self.ev(node.body, s2)
-        raise Unsupported("call of a nested def")
+        if isinstance(node, ast.FunctionDef):
+            if self.concrete:
+                return self.inline_nested(fv, args, st)
+            if getattr(fv, "contract", None) is not None:
+                return self.call_inner(fv, args, st)
+        raise Unsupported("call of a nested def without an inner contract")
+
+    # ---------------------------------------------------- nested functions under an inner contract
+    def fresh_tuplist(self, st, empty=False):
+        row = fresh_fun("row", z3.IntSort(), TUP)
+        self.row_registry.append(row)
+        if empty:
+            return TupListV(0, row)
+        n = fresh("rows_n")
+        st.assume(n >= 0)
+        return TupListV(n, row)
+
+    def _inner_params(self, node):
+        a = node.args
+        if a.vararg or a.kwarg or a.kwonlyargs or a.defaults:
+            raise Unsupported("nested def with defaults / varargs")
+        return [x.arg for x in a.args]
+
+    def _havoc_mutated(self, IK, st):
+        """The lists a nested function may store into (declared in its inner contract, and checked:
+        a store to any other closure list is refused) get arbitrary content of the same length."""
+        for nm in getattr(IK, "mutates", ()):
+            cur = st.env.get(nm)
+            if not isinstance(cur, ListV):
+                raise Unsupported(f"inner contract: '{nm}' is not a local list")
+            F_ = fresh_fun(nm, z3.IntSort(), z3.IntSort())
+            st.env[nm] = ListV(cur.n, lambda j, F_=F_: IntV(F_(j)))
+
+    def _snapshot_env(self, st, IK):
+        env = dict(st.env)
+        for nm in getattr(IK, "mutates", ()):
+            env[nm] = st.env[nm].snapshot()
+        return env
+
+    def verify_inner(self, node, IK, st):
+        """The nested function is verified as a unit of its own against its inner contract: arbitrary
+        arguments, arbitrary content of the closure lists it may mutate, every other closure variable
+        as bound (and never rebound afterwards: checked) at the definition."""
+        names = self._inner_params(node)
+        body_assigned = assigned_names(node.body)
+        local_names = set(names) | {n_ for n_ in body_assigned if n_ not in st.env or n_ in names}
+        for nm in body_assigned - local_names - {"__out__"}:
+            if nm not in getattr(IK, "mutates", ()):
+                raise Unsupported(f"nested def {node.name} assigns/mutates closure variable '{nm}' not declared in the inner contract")
+        outer_rest = self.func.body[self.func.body.index(node) + 1:] if node in self.func.body else None
+        if outer_rest is None:
+            raise Unsupported("inner contract on a def that is not a top-level statement of the function")
+        captured = {n_.id for n_ in ast.walk(node) if isinstance(n_, ast.Name)} & set(st.env)
+        rebound = assigned_names(outer_rest) & captured
+        if rebound:
+            raise Unsupported(f"closure variables rebound after the nested def: {sorted(rebound)}")
+        s = st.fork()
+        s.env[node.name] = st.env[node.name]
+        self._havoc_mutated(IK, s)
+        args = []
+        for nm in names:
+            v = IntV(fresh(nm))
+            s.env[nm] = v
+            args.append(v)
+        c = dsl.SymCtx(self)
+        entry = self._snapshot_env(s, IK)
+        entry_ns = _NS(dict(entry, **{"__params__": self.params}))
+        s.env["__entry__"] = _NS(dict(entry))
+        pre = IK.requires(c, entry_ns, *args)
+        s.assume(pre)
+        for f in c.side:
+            s.assume(f)
+        c.side.clear()
+        is_gen = any(isinstance(n_, (ast.Yield, ast.YieldFrom)) for n_ in ast.walk(node))
+        if is_gen:
+            s.env["__out__"] = self.fresh_tuplist(s, empty=True)
+        saved_func, saved_ret = self.func, self.ret_ordinal
+        outer = self.func
+
+        class _Shim:
+            qualname = f"{outer.qualname}.<{node.name}>"
+            module = outer.module
+            lines = outer.lines
+            body = node.body
+            cls = getattr(outer, "cls", None)
+            kind = "nested"
+
+        self.func = _Shim
+        self.ret_ordinal = 0
+        try:
+            for kind, s2, val in self.exec_block(node.body, s):
+                if kind == "raise":
+                    self.emit("no-raise", s2, z3.BoolVal(False), f"[{val}]")
+                    continue
+                if kind not in ("fall", "return"):
+                    raise Unsupported(f"{kind} outside a loop in nested def")
+                self.ret_ordinal += 1
+                tag = f"#{self.ret_ordinal}"
+                self.obls.append(Obligation(f"{_Shim.qualname}:cover{tag}", "cover", _Shim.qualname, s2.pc, z3.BoolVal(True), expect="sat"))
+                if is_gen:
+                    res = s2.env["__out__"].snapshot("gen")
+                else:
+                    res = NONE if kind == "fall" else val
+                exit_ns = _NS(dict(self._snapshot_env(s2, IK), **{"__params__": self.params}))
+                goal = IK.ensures(c, entry_ns, *args, res, exit_ns)
+                hy = State(s2.env, list(s2.pc))
+                for f in c.side:
+                    hy.assume(f)
+                c.side.clear()
+                for j, conj in enumerate(_conjuncts(B(goal))):
+                    self.emit("post@return", hy, conj, f"{tag}.{j}")
+        finally:
+            self.func, self.ret_ordinal = saved_func, saved_ret
+
+    def call_inner(self, fv, args, st):
+        """Call of a nested function by its inner contract (also the recursive calls inside it)."""
+        IK = fv.contract
+        c = dsl.SymCtx(self)
+        entry = self._snapshot_env(st, IK)
+        entry_ns = _NS(dict(entry, **{"__params__": self.params}))
+        pre = IK.requires(c, entry_ns, *args)
+        for f in c.side:
+            st.assume(f)
+        c.side.clear()
+        for j, conj in enumerate(_conjuncts(B(pre))):
+            self.emit("pre@callsite", st, conj, f"[<{fv.node.name}>].{j}")
+        self._havoc_mutated(IK, st)
+        is_gen = any(isinstance(n_, (ast.Yield, ast.YieldFrom)) for n_ in ast.walk(fv.node))
+        if is_gen:
+            res_l = self.fresh_tuplist(st)
+            res = res_l.snapshot("gen")
+        else:
+            raise Unsupported("nested non-generator functions under contract")
+        exit_ns = _NS(dict(self._snapshot_env(st, IK), **{"__params__": self.params}))
+        post = IK.ensures(c, entry_ns, *args, res, exit_ns)
+        st.assume(post)
+        for f in c.side:
+            st.assume(f)
+        c.side.clear()
+        self.rules_used.add("nested-function-by-inner-contract (partial correctness: termination of the recursion is not verified)")
+        return res
+
+    def inline_nested(self, fv, args, st):
+        """Concrete mode (CPython differential check): the nested def is executed at the call site on
+        the caller's environment (closure lists are shared objects, as in Python)."""
+        node = fv.node
+        names = self._inner_params(node)
+        is_gen = any(isinstance(n_, (ast.Yield, ast.YieldFrom)) for n_ in ast.walk(node))
+        # the callee's frame: its parameters and every name it binds by plain assignment (a store
+        # through a subscript mutates the shared closure object and is NOT part of the frame)
+        plain = set()
+        for n_ in ast.walk(ast.Module(body=node.body, type_ignores=[])):
+            if isinstance(n_, (ast.Assign, ast.AugAssign, ast.AnnAssign, ast.For)):
+                for t_ in (n_.targets if isinstance(n_, ast.Assign) else [n_.target]):
+                    for e_ in ast.walk(t_):
+                        if isinstance(e_, ast.Name) and isinstance(e_.ctx, ast.Store):
+                            plain.add(e_.id)
+        frame = list(dict.fromkeys(names + sorted(plain) + ["__out__"]))
+        saved = {nm: st.env.get(nm) for nm in frame}
+        local_extra = []
+        for nm, v in zip(names, args):
+            st.env[nm] = v
+        if is_gen:
+            st.env["__out__"] = self.fresh_tuplist(st, empty=True) if isinstance(saved["__out__"], TupListV) else ListV(0, lambda i: IntV(0))
+        outs = self.exec_block(node.body, st)
+        if len(outs) != 1:
+            raise Unsupported("concrete mode: nested def forked")
+        kind, s2, val = outs[0]
+        if kind == "raise":
+            raise _PyRaise(val)
+        res = s2.env["__out__"].snapshot("gen") if is_gen else (NONE if kind == "fall" else val)
+        for nm, v in saved.items():
+            if v is None:
+                st.env.pop(nm, None)
+            else:
+                st.env[nm] = v
+        for nm in local_extra:
+            st.env.pop(nm, None)
+        return res
 
     def inline_call(self, F, args, st):
         """Symbolically execute the body of a small uncontracted helper at the call site
@@ -1633,6 +1886,11 @@ class Engine:
 
     def call_by_contract(self, name, args, ctx=None, st=None, kwargs=None):
         if self.concrete and st is not None:
+            K0 = self.contracts.get(name) or self.contracts.get(f"{name}@{len(args)}")
+            if K0 is not None and K0.assumed and getattr(self, "concrete_oracle", None) is not None:
+                # a callee whose contract is ASSUMED (outside the subset): the differential check uses the
+                # real function as the oracle for its value
+                return self.concrete_oracle(K0, list(args))
             F = self.repo.get(name.split("@")[0])
             if F is None:
                 raise Unsupported(f"concrete mode: {name} not found")
@@ -1746,6 +2004,10 @@ class Engine:
                 c.side = []
             else:
                 facts = tmp.pc
+            if K.derived is not None:
+                facts = facts + [B(K.derived(c, *vals, res))] + c.side
+                c.side = []
+                self.rules_used.add(f"{K.derived_rule} (derived facts of {K.name})")
             self.call_memo[mkey] = (res, list(facts))
         if st is not None:
             for f in facts:
@@ -1778,6 +2040,15 @@ class Engine:
             return out
         if r.startswith("bool*"):
             return TupV([BoolV(fresh("res", "bool")) for _ in range(int(r[5:]))])
+        if r == "TupleList":
+            return self.fresh_tuplist(st).snapshot("gen")
+        if r.startswith("Seq[int*"):
+            k_ = int(r[8:-1])
+            n = fresh("res_n")
+            st.assume(n >= 0)
+            funs = [fresh_fun("res", z3.IntSort(), z3.IntSort()) for _ in range(k_)]
+            self.seed_funs.append(funs[0])
+            return SeqV(n, lambda i, funs=funs: TupV([IntV(f(i)) for f in funs]), "list")
         raise Unsupported(f"result sort {r}")
 
 
@@ -1788,7 +2059,7 @@ def _inst(q):
     """Body of quantifier q with its bound variables replaced by fresh constants."""
     k = q.num_vars()
     cs = [z3.Const(f"sk!{q.var_name(i)}!{next(_SK)}", q.var_sort(i)) for i in range(k)]
-    return z3.substitute_vars(q.body(), *reversed(cs)), [c_ for c_ in cs if z3.is_int(c_)]
+    return z3.substitute_vars(q.body(), *reversed(cs)), [c_ for c_ in cs if z3.is_int(c_) or c_.sort() == TUP]
 
 
 def _hyp_skolem(h, consts, depth=0):
@@ -1872,6 +2143,26 @@ def _load(tgt):
         if hasattr(n, "ctx"):
             n.ctx = ast.Load()
     return t
+
+
+def _bound_names(tgt):
+    """Names bound or mutated by an assignment target: a subscript / attribute store mutates its
+    root object, the index expression binds nothing."""
+    if isinstance(tgt, ast.Name):
+        return {tgt.id}
+    if isinstance(tgt, (ast.Tuple, ast.List)):
+        out = set()
+        for e in tgt.elts:
+            out |= _bound_names(e)
+        return out
+    if isinstance(tgt, ast.Starred):
+        return _bound_names(tgt.value)
+    if isinstance(tgt, (ast.Subscript, ast.Attribute)):
+        root = tgt.value
+        while isinstance(root, (ast.Subscript, ast.Attribute)):
+            root = root.value
+        return {root.id} if isinstance(root, ast.Name) else set()
+    return set()
 
 
 def _target_names(tgt):
